@@ -136,7 +136,7 @@ def run(ctx):
         "assignment statement (fresh child scope of the container's scope)",
     ]
     # relations of this property on the upstream regression inputs (bounded, never proof)
-    rc = ctx.monitor("m_corpus_rel", "psearch", 400, ctx.seed, 16, json.dumps({"rel": ['option']}))
+    rc = ctx.monitor("m_corpus_rel", "psearch", 400, ctx.seed, 16, json.dumps({"rel": ['option', 'block']}))
     ctx.bounded.append({"monitor": "m_corpus_rel", "inputs_tried": rc["tried"], "violation": rc["violation"],
                         "kind": 'every upstream regression input: --option X=v equals options: {X: v} written into the file (F_force_wrapper, C_line_length)'})
     if rc["violation"]:
